@@ -7,6 +7,7 @@ pub mod c06;
 pub mod c07;
 pub mod c08;
 pub mod c09;
+pub mod c10;
 pub mod c11;
 pub mod c12;
 pub mod c13;
@@ -31,6 +32,7 @@ pub fn registry() -> Vec<PropEntry> {
 		PropEntry { id: "C07", level: "exploration", check: c07::check, replay: c07::replay },
 		PropEntry { id: "C08", level: "exploration", check: c08::check, replay: c08::replay },
 		PropEntry { id: "C09", level: "fault_enumeration", check: c09::check, replay: c09::replay },
+		PropEntry { id: "C10", level: "exploration", check: c10::check, replay: c10::replay },
 		PropEntry { id: "C11", level: "exploration", check: c11::check, replay: c11::replay },
 		PropEntry { id: "C12", level: "exploration", check: c12::check, replay: c12::replay },
 		PropEntry { id: "C13", level: "exploration", check: c13::check, replay: c13::replay },
